@@ -2,6 +2,7 @@ package mslx
 
 import (
 	"fmt"
+	"math"
 	"strconv"
 	"strings"
 
@@ -19,19 +20,17 @@ const (
 )
 
 type token struct {
-	kind tokKind
-	text string
-	line int
-	adj  bool // no whitespace between this token and the previous one
-	// literals
-	ival   uint64
+	text   string
+	line   int
+	kind   tokKind
+	adj    bool // no whitespace between this token and the previous one
 	isU    bool // u suffix
 	isL    bool // l suffix
 	isHex  bool // hex or octal literal
-	fval   float64
-	f32    float32
 	isHalf bool
-	ftext  string // literal digits without suffix
+	// literals
+	ival uint64
+	f32  float32
 }
 
 func malformed(line int, format string, a ...any) *xrt.Malformed {
@@ -49,11 +48,63 @@ func isDigit(c byte) bool { return c >= '0' && c <= '9' }
 
 // Multi-character punctuators. '>' is always lexed alone (the parser joins ">>", ">=", ">>=" using
 // the adj flag) so that template argument lists close correctly.
-var puncts3 = []string{"<<=", "...", "->*"}
-var puncts2 = []string{"<<", "<=", "==", "!=", "&&", "||", "++", "--", "+=", "-=", "*=", "/=", "%=", "&=", "|=", "^=", "->", "::"}
+func punctLen(s string) int {
+	c := s[0]
+	var d, e byte
+	if len(s) > 1 {
+		d = s[1]
+	}
+	if len(s) > 2 {
+		e = s[2]
+	}
+	switch c {
+	case '{', '}', '[', ']', '(', ')', ';', ',', '?', '~', '>':
+		return 1
+	case '.':
+		if d == '.' && e == '.' {
+			return 3
+		}
+		return 1
+	case '<':
+		if d == '<' {
+			if e == '=' {
+				return 3
+			}
+			return 2
+		}
+		if d == '=' {
+			return 2
+		}
+		return 1
+	case ':':
+		if d == ':' {
+			return 2
+		}
+		return 1
+	case '=', '!', '*', '/', '%', '^':
+		if d == '=' {
+			return 2
+		}
+		return 1
+	case '&', '|', '+':
+		if d == c || d == '=' {
+			return 2
+		}
+		return 1
+	case '-':
+		if d == '-' || d == '=' || d == '>' {
+			return 2
+		}
+		return 1
+	}
+	return 0
+}
 
-func lex(src string) ([]token, error) {
-	toks := make([]token, 0, len(src)/4+16)
+func lex(src string, buf []token) ([]token, error) {
+	toks := buf[:0]
+	if cap(toks) < len(src)/4+16 {
+		toks = make([]token, 0, len(src)/3+16)
+	}
 	line := 1
 	i := 0
 	n := len(src)
@@ -116,32 +167,12 @@ func lex(src string) ([]token, error) {
 			return nil, unsupported(line, "string/character literal")
 		default:
 			t.kind = tkPunct
-			matched := false
-			for _, p := range puncts3 {
-				if strings.HasPrefix(src[i:], p) {
-					t.text = p
-					i += 3
-					matched = true
-					break
-				}
+			n := punctLen(src[i:])
+			if n == 0 {
+				return nil, malformed(line, "unexpected character %q", c)
 			}
-			if !matched {
-				for _, p := range puncts2 {
-					if strings.HasPrefix(src[i:], p) {
-						t.text = p
-						i += 2
-						matched = true
-						break
-					}
-				}
-			}
-			if !matched {
-				if strings.IndexByte("{}[]()<>;:,.?~!+-*/%&|^=", c) < 0 {
-					return nil, malformed(line, "unexpected character %q", c)
-				}
-				t.text = src[i : i+1]
-				i++
-			}
+			t.text = src[i : i+n]
+			i += n
 		}
 		lastEnd = i
 		toks = append(toks, t)
@@ -195,15 +226,12 @@ func lexNumber(src string, i int, t *token) (int, error) {
 		digits := src[start:i]
 		if isFloat {
 			t.kind = tkFloat
-			t.ftext = digits
-			f, err := strconv.ParseFloat(digits, 64)
-			if err != nil && f == 0 {
+			// MSL has no double: an unsuffixed floating literal is a float. Round the decimal text
+			// once, directly to binary32 (out-of-range literals become infinity).
+			f32, err := strconv.ParseFloat(digits, 32)
+			if err != nil && !math.IsInf(f32, 0) {
 				return i, malformed(t.line, "bad floating literal %q", digits)
 			}
-			t.fval = f
-			// MSL has no double: an unsuffixed floating literal is a float. Round the decimal text
-			// once, directly to binary32.
-			f32, _ := strconv.ParseFloat(digits, 32)
 			t.f32 = float32(f32)
 		} else {
 			t.kind = tkInt
